@@ -94,6 +94,11 @@ Section S.
   Qed.
 End S.
 
+Lemma as_num_Some e x : as_num e = Some x -> e = Num x.
+Proof. destruct e; cbn; intros H; try discriminate. congruence. Qed.
+Lemma as_num_None e : as_num e = None -> is_num e = false.
+Proof. destruct e; cbn; intros H; try discriminate; reflexivity. Qed.
+
 Lemma truthyR_0 : truthyR 0 = false.
 Proof. unfold truthyR. destruct (Req_EM_T 0 0); [reflexivity|lra]. Qed.
 Lemma truthyR_1 : truthyR 1 = true.
